@@ -126,7 +126,7 @@ contract('gnpy.core.info.create_input_spectral_information', name='gnpy.core.inf
          ensures=[('inv', 'INV(result)')], returns=SI(), pure=True,
          note='ASSUMED: returns a well-formed spectrum (uniform comb); used where only the frame of the caller matters')
 OV_RAMAN = {
-    ('gnpy.core.parameters', 'SimParams._shared_dict'): lambda it: it.p.inputs['equipment']['ghost_shared'],
+    ('gnpy.core.parameters', 'SimParams._shared_dict'): lambda it: it.p.live['equipment']['ghost_shared'],
     ('gnpy.core.network', 'RamanSolver'): lambda it: _Obj('<ns>', {'calculate_stimulated_raman_scattering': _Builtin('srs', _opaque_srs)}),
 }
 EQ_RAMAN = dct(ghost_shared=dct(nli_params=NLI, raman_params=RAMAN), SI=dct(default=obj('<ns>', f_min=real(), f_max=real(), roll_off=real(), baud_rate=real(), spacing=real(), tx_osnr=real())))
